@@ -20,14 +20,16 @@ def vee (A : Mat α 3 3) : Vec α 3 :=
 
 def ad (a : Vec α 3) : Mat α 3 3 := hat a
 
-/-- `S1 = Σ ŵ^k/(k+1)!` — `I − cos_2·M − sin_3·M·M` -/
+/-- `S1 = Σ ŵ^k/(k+1)!` — `I − cos_2·M − sin_3·M·M`.  The C++ `sin_3(th2) * M * M` parses (and Eigen
+    evaluates) as `(sin_3·M)·M`: the scalar multiplies the entries of the LEFT factor first
+    (tied to the source by SrcTieImpl.so3_calc_S1). -/
 def calc_S1 (a : Vec α 3) : Mat α 3 3 :=
   let th2 := sqNorm a
   let M := hat a
   let c2 := Trig.cos_2 th2
   let s3 := Trig.sin_3 th2
-  let MM := memoM (mmul M M)
-  (.of (fun i j => (ident 3 i j - c2 * M i j) - s3 * MM i j))
+  let sMM := memoM (mmul (msmul s3 M) M)
+  (.of (fun i j => (ident 3 i j - c2 * M i j) - sMM i j))
 
 /-- `S2 = Σ ŵ^k/(k+2)!` — `I/2 − sin_3·M + cos_4·M·M` -/
 def calc_S2 (a : Vec α 3) : Mat α 3 3 :=
@@ -35,8 +37,8 @@ def calc_S2 (a : Vec α 3) : Mat α 3 3 :=
   let M := hat a
   let s3 := Trig.sin_3 th2
   let c4 := Trig.cos_4 th2
-  let MM := memoM (mmul M M)
-  (.of (fun i j => (ident 3 i j / nat 2 - s3 * M i j) + c4 * MM i j))
+  let cMM := memoM (mmul (msmul c4 M) M)
+  (.of (fun i j => (ident 3 i j / nat 2 - s3 * M i j) + cMM i j))
 
 /-- coefficient `A` of `calc_S1inv` / `d2r_expinv` -/
 def S1invA (th2 : α) : α :=
@@ -50,8 +52,8 @@ def calc_S1inv (a : Vec α 3) : Mat α 3 3 :=
   let th2 := sqNorm a
   let A := S1invA th2
   let M := hat a
-  let MM := memoM (mmul M M)
-  (.of (fun i j => (ident 3 i j - M i j / nat 2) + A * MM i j))
+  let AMM := memoM (mmul (msmul A M) M)
+  (.of (fun i j => (ident 3 i j - M i j / nat 2) + AMM i j))
 
 def identity : Vec α 4 := mk4 (nat 0) (nat 0) (nat 0) (nat 1)
 
